@@ -38,6 +38,7 @@ VARIABLES cs, ei,      \* case and event cursor
           lastA,       \* traj: the assignment used by the last executed step
           stopped,     \* traj: the tolerance criterion ended the iteration
           ptr,         \* traj: transform-sum logged for the previous budget
+          hv,          \* traj: huge budgets seen so far: [n |-> how many, cen |-> the centroids logged for them]
           ikeyPrev,    \* restart: order key of the inertia reported with one restart less (same budget)
           singles,     \* restart: the restarts observed on their own under the current budget, in order:
                        \*          records [ikey, cen, counts]
@@ -47,7 +48,7 @@ VARIABLES cs, ei,      \* case and event cursor
           used         \* deviations needed so far
 
 rvars == <<ikeyPrev, singles, prevSingles, prevIn, curIn>>
-tvars == <<cs, ei, tt, cur, curTab, prevTab, lastA, stopped, ptr, rvars, used>>
+tvars == <<cs, ei, tt, cur, curTab, prevTab, lastA, stopped, ptr, hv, rvars, used>>
 
 Case == Rec[cs]
 In   == Case.inp
@@ -76,7 +77,7 @@ TraceInit ==
   /\ tt = 0
   /\ cur = IF Rec[cs].kind = "traj" THEN LatticeAll(Rec[cs].inp.c0) ELSE <<>>
   /\ curTab = IF Rec[cs].kind = "traj" THEN Tab(Rec[cs].inp.metric, Rec[cs].inp.pts, cur, Eps) ELSE <<>>
-  /\ prevTab = curTab /\ lastA = <<>> /\ stopped = FALSE
+  /\ prevTab = curTab /\ lastA = <<>> /\ stopped = FALSE /\ hv = [n |-> 0, cen |-> <<>>]
   /\ ptr = 0 /\ ikeyPrev = <<>> /\ singles = <<>> /\ prevSingles = <<>> /\ prevIn = <<>> /\ curIn = <<>> /\ used = {}
   \* the design-model variables are not used during trace validation
   /\ metric = "trace" /\ X = <<>> /\ C0 = <<>> /\ C = <<>> /\ prevC = <<>> /\ A = <<>> /\ t = 0 /\ pc = "trace"
@@ -226,7 +227,7 @@ TFit ==
        /\ stopped' \in {b \in BOOLEAN : IF b THEN MayStop(AA) ELSE MayCont(AA)}
   /\ prevTab' = curTab
   /\ tt' = tt + 1 /\ ptr' = Ev.trsum /\ ei' = ei + 1
-  /\ UNCHANGED <<cs, rvars, mvars>>
+  /\ UNCHANGED <<cs, rvars, hv, mvars>>
 
 \* a larger budget after the tolerance criterion stopped the iteration: the same model again
 TFitStay ==
@@ -237,7 +238,42 @@ TFitStay ==
        /\ Explains(Ev, curTab, tq, prevTab)
        /\ Report(Ev, curTab, lastA, prevTab)
   /\ tt' = tt + 1 /\ ptr' = Ev.trsum /\ ei' = ei + 1
-  /\ UNCHANGED <<cs, cur, curTab, prevTab, lastA, stopped, rvars, mvars>>
+  /\ UNCHANGED <<cs, cur, curTab, prevTab, lastA, stopped, rvars, hv, mvars>>
+
+\* Budgets of 2^32 and more (event "fitx", In.hms: decimal strings, they do not fit TLC's integers) after the
+\* small budgets 1..Len(In.ms), with a tolerance the run meets on its own after a few iterations.  Such a
+\* budget never binds, so
+\*  - when the tolerance criterion had already stopped the run within the small budgets: the same model again
+\*    (every clause, on the exact centroids);
+\*  - otherwise (the exact trajectory is not continued: denominators): the cost of the returned centroids is not
+\*    above that of the largest small budget (l2, "never increases when the iteration budget grows");
+\*  - all huge budgets return the same centroids (the run ends by the tolerance rule long before any of them).
+HugeSame(ev) == hv.n > 0 => ev.cen = hv.cen
+HugeCost(ev) == (~stopped /\ Mt = "l2") => ev.trsum <= ptr + 2 * SlT + TN * Eps
+PreX(ev) == ShapeOk(ev) /\ tt = Len(In.ms) /\ hv.n < Len(In.hms) /\ ev.hm = In.hms[hv.n + 1] /\ CenWithin(ev, Hull)
+TFitHuge ==
+  /\ HasEv("fitx") /\ Case.kind = "traj"
+  /\ PreX(Ev)
+  /\ HugeSame(Ev)
+  /\ HugeCost(Ev)
+  /\ IF stopped
+       THEN /\ CenClose(Ev, cur)
+            /\ \E tq \in {Tab(Mt, QS, cur, Eps)} :
+                 /\ Explains(Ev, curTab, tq, prevTab)
+                 /\ Report(Ev, curTab, lastA, prevTab)
+       ELSE /\ BoxOk(Ev)
+            /\ CountsWellFormed(Ev)
+            /\ used' = used
+  /\ hv' = [n |-> hv.n + 1, cen |-> Ev.cen]
+  /\ ei' = ei + 1
+  /\ UNCHANGED <<cs, tt, cur, curTab, prevTab, lastA, stopped, ptr, rvars, mvars>>
+
+HugeDiag ==
+  IF ~PreX(Ev) THEN <<"shape/order/hull">>
+  ELSE <<{nm \in {"huge-same", "huge-cost", "huge-stop"} :
+           CASE nm = "huge-same" -> ~HugeSame(Ev)
+             [] nm = "huge-cost" -> ~HugeCost(Ev)
+             [] nm = "huge-stop" -> stopped /\ ~CenClose(Ev, cur)}>>
 
 \* diagnosis of a fit event nothing explains: names of the false clauses
 FitDiag ==
@@ -374,7 +410,7 @@ TSingle ==
      ELSE /\ singles' = Append(singles, rec)
           /\ UNCHANGED <<prevSingles, prevIn, curIn, ikeyPrev>>
   /\ ei' = ei + 1
-  /\ UNCHANGED <<cs, tt, cur, curTab, prevTab, lastA, stopped, ptr, used, mvars>>
+  /\ UNCHANGED <<cs, tt, cur, curTab, prevTab, lastA, stopped, ptr, used, hv, mvars>>
 
 \* the r-run fit returns the best of its restarts: its inertia is the least of the inertias of restarts
 \* 1..r (each under the same budget) and its centroids are those of a restart attaining it
@@ -408,7 +444,7 @@ TMulti ==
   /\ ikeyPrev' = Ev.ikey
   /\ curIn' = Append(curIn, Ev.inertia)
   /\ ei' = ei + 1
-  /\ UNCHANGED <<cs, tt, cur, curTab, prevTab, lastA, stopped, ptr, singles, prevSingles, prevIn, mvars>>
+  /\ UNCHANGED <<cs, tt, cur, curTab, prevTab, lastA, stopped, ptr, singles, prevSingles, prevIn, hv, mvars>>
 
 RestartDiag ==
   IF ~ShapeOk(Ev) THEN <<"shape/finite">>
@@ -437,24 +473,25 @@ RestartDiag ==
 TEnd ==
   /\ HasEv("end")
   /\ ei = Len(Case.ev)
-  /\ Case.kind = "traj" => tt = Len(In.ms)
+  /\ Case.kind = "traj" => tt = Len(In.ms) /\ hv.n = Len(In.hms)
   /\ Case.kind = "restart" => Len(Case.ev) = 2 * In.runs * Len(In.maxits) + 1
   /\ IF used = {} THEN Ok(Case.id) ELSE OkDev(Case.id, used)
   /\ ei' = ei + 1
-  /\ UNCHANGED <<cs, tt, cur, curTab, prevTab, lastA, stopped, ptr, rvars, used, mvars>>
+  /\ UNCHANGED <<cs, tt, cur, curTab, prevTab, lastA, stopped, ptr, rvars, used, hv, mvars>>
 
 Stuck ==
   /\ ei <= Len(Case.ev)
-  /\ ~(ENABLED TFit \/ ENABLED TFitStay \/ ENABLED TSingle \/ ENABLED TMulti \/ ENABLED TEnd)
+  /\ ~(ENABLED TFit \/ ENABLED TFitStay \/ ENABLED TFitHuge \/ ENABLED TSingle \/ ENABLED TMulti \/ ENABLED TEnd)
   /\ Fail(Case.id, <<ei, Ev.ev,
                      IF Ev.ev = "fit" /\ Case.kind = "traj" THEN FitDiag
+                     ELSE IF Ev.ev = "fitx" /\ Case.kind = "traj" THEN HugeDiag
                      ELSE IF Ev.ev \in {"single", "multi"} /\ Case.kind = "restart" THEN RestartDiag
                      ELSE <<"unexplained event">>>>)
   /\ ei' = Len(Case.ev) + 2
-  /\ UNCHANGED <<cs, tt, cur, curTab, prevTab, lastA, stopped, ptr, rvars, used, mvars>>
+  /\ UNCHANGED <<cs, tt, cur, curTab, prevTab, lastA, stopped, ptr, rvars, used, hv, mvars>>
 
 \* the acceptance pass runs without Stuck (its ENABLED would evaluate every action twice); rejected
 \* cases are re-run with TraceNext to obtain the FAIL diagnostics
-TraceNextFast == TFit \/ TFitStay \/ TSingle \/ TMulti \/ TEnd
+TraceNextFast == TFit \/ TFitStay \/ TFitHuge \/ TSingle \/ TMulti \/ TEnd
 TraceNext == TraceNextFast \/ Stuck
 =============================================================================
